@@ -206,7 +206,8 @@ class CoreAdapter:
 
     def build_cells(self, pat):
         w = World()
-        g = gen_core.build_core(layout={}, fresh={}, places={}, n_locs=1, track=False, symmetry="third")
+        # trackAssems on and a spent fuel pool present: a purge (discharge=False) must still not leave anything there
+        g = gen_core.build_core(layout={}, fresh={}, places={}, n_locs=1, track=True, symmetry="third")
         w.r, w.core = g.r, g.core
         w.orig, w.V0, w.M0, w.A0 = {}, {}, {}, {}
         for o, (i, j) in enumerate(pat, start=1):
@@ -247,6 +248,7 @@ class CoreAdapter:
         w.fp0 = {o: [gen_core.block_fingerprint(b) for b in a] for o, a in w.orig.items()}
         w.name0 = {o: (a.getName(), [b.getName() for b in a]) for o, a in w.orig.items()}
         w.oid = {id(a): o for o, a in w.orig.items()}
+        w.pool0 = self.pool_size(w)
         kids0 = {id(a) for a in w.core}
         w.outside0 = {id(a) for a in w.core.assembliesByName.values() if id(a) not in kids0}
         w.outside0 |= {id(b.parent) for b in w.core.blocksByName.values() if id(b.parent) not in kids0}
@@ -257,6 +259,11 @@ class CoreAdapter:
         w.ch = self.gc.ThirdCoreHexToFullCoreChanger()
         w.ec = self.gc.EdgeAssemblyChanger()
         w.fresh_ok = True
+
+    @staticmethod
+    def pool_size(w):
+        sfp = w.r.excore.get("sfp")
+        return 0 if sfp is None else len(sfp)
 
     def note_names(self, w):
         """names of copies must be new when the copy first appears and stay afterwards"""
@@ -447,7 +454,7 @@ class CoreAdapter:
         return {
             "sym": symname, "mult": core.powerMultiplier, "cells": cells, "asm": asm, "byLoc": by_loc, "where": where,
             "nameFinds": name_finds, "blkFinds": blk_finds, "staleNames": stale_names, "staleBlks": len(stale_owner),
-            "count": len(core), "shared": shared, "namesUnique": len(set(names)) == len(names) and len(set(bnames)) == len(bnames),
+            "count": len(core), "pool": self.pool_size(w) - w.pool0, "shared": shared, "namesUnique": len(set(names)) == len(names) and len(set(bnames)) == len(bnames),
             "origNamesKept": kept, "freshNames": bool(w.fresh_ok), "volOk": vol_ok, "notes": notes,
         }
 
@@ -1155,6 +1162,8 @@ def mutants():
          S(T, "restorePreviousGeometry", 'self._scaleBlockVolIntegratedParams(b, "down")', "pass")),
         ("restore leaves the symmetry at full core",
          S(T, "restorePreviousGeometry", "r.core.symmetry = geometry.SymmetryType.fromAny(", "_unused = geometry.SymmetryType.fromAny(")),
+        ("restore discharges the added assemblies to the spent fuel pool",
+         S(T, "restorePreviousGeometry", "r.core.removeAssembly(a, discharge=False)", "r.core.removeAssembly(a, discharge=True)")),
         ("restore divides the centre by 2", S(T, "_scaleBlockVolIntegratedParams", "op = operator.truediv", "op = lambda v, n: v / 2")),
         # -- core bookkeeping ---------------------------------------------------------------------------------
         ("removeAssembly leaves the names in the lookup tables", lambda: P(cores.Core, "_removeListFromAuxiliaries", lambda self, a: None)),
@@ -1174,6 +1183,8 @@ def mutants():
          lambda: P(assemblies.Assembly, "scaleParamsToNewSymmetryFactor", lambda self, old: None)),
         ("moveTo rescales parameters that are not volume integrated", lambda: P(assemblies.Assembly, "scaleParamsToNewSymmetryFactor", scale_all_params)),
         # -- edge assemblies ------------------------------------------------------------------------------------
+        ("addEdgeAssemblies does not clear the caches of the 0-degree line (stale areas)",
+         S(E, "addEdgeAssemblies", "a.clearCache()  # symmetry factors", "pass  #")),
         ("addEdgeAssemblies uses the second symmetric image", S(E, "addEdgeAssemblies", "i, j = locs[0]", "i, j = locs[1]")),
         ("addEdgeAssemblies overwrites a filled edge cell",
          S(E, "addEdgeAssemblies", "if core.childrenByLocator.get(spatialLocator):", "if False:")),
